@@ -15,7 +15,11 @@ func fnWatch(ctx *cmdContext, args map[string]any) (output respValue, err error)
 
 	ids := ctx.dsc.getIds(keyStrs...)
 	for idx, id := range ids {
-		ctx.cs.watches[watchKey{ds: ctx.dsc.ds, key: keyStrs[idx]}] = id
+		wk := watchKey{ds: ctx.dsc.ds, key: keyStrs[idx]}
+		if _, watched := ctx.cs.watches[wk]; !watched {
+			// a key that is watched already keeps the version seen first
+			ctx.cs.watches[wk] = id
+		}
 	}
 
 	output.data = rstrOK
